@@ -8,28 +8,28 @@ Import ListNotations.
    followed by the return (whose isTail cleanup runs the handlers after f
    returned). *)
 Lemma tailcall_disabled_with_pending_close :
-  forall cx n tl fb body c n',
+  forall cx n tl fb ec body c n',
     0 < top_height cx ->
-    compile_stats cx n tl fb (BRet (RCall body)) = Some (c, n') ->
+    compile_stats cx n tl fb ec (BRet (RCall body)) = Some (c, n') ->
     exists c', compile_fun body = Some c' /\ c = [ICall c'; IRet].
 Proof.
-  intros cx n tl fb body c n' H.
+  intros cx n tl fb ec body c n' H.
   cbn [compile_stats]. unfold compile_fun.
   destruct (block_prologue root_ctx 0 body true true) as [[[cx0 n0] tl0]|]; [|discriminate].
-  destruct (compile_stats cx0 n0 tl0 true body) as [[c0 n1]|]; cbn [obind]; [|discriminate].
+  destruct (compile_stats cx0 n0 tl0 true [] body) as [[c0 n1]|]; cbn [obind]; [|discriminate].
   destruct (Nat.eqb_spec (top_height cx) 0); [lia|].
   intros E. inversion E. eauto.
 Qed.
 
 Lemma tailcall_when_nothing_pending :
-  forall cx n tl fb body c n',
+  forall cx n tl fb ec body c n',
     top_height cx = 0 ->
-    compile_stats cx n tl fb (BRet (RCall body)) = Some (c, n') ->
+    compile_stats cx n tl fb ec (BRet (RCall body)) = Some (c, n') ->
     exists c', compile_fun body = Some c' /\ c = [ITailCall c'].
 Proof.
-  intros cx n tl fb body c n' H.
+  intros cx n tl fb ec body c n' H.
   cbn [compile_stats]. unfold compile_fun.
   destruct (block_prologue root_ctx 0 body true true) as [[[cx0 n0] tl0]|]; [|discriminate].
-  destruct (compile_stats cx0 n0 tl0 true body) as [[c0 n1]|]; cbn [obind]; [|discriminate].
+  destruct (compile_stats cx0 n0 tl0 true [] body) as [[c0 n1]|]; cbn [obind]; [|discriminate].
   rewrite H. cbn. intros E. inversion E. eauto.
 Qed.
